@@ -10,7 +10,7 @@ import numpy as np
 from hypothesis import strategies as st
 
 from vf import gen, obs
-from vf.base import Discard, Failure, Raised, arr_list, canon, eq, lib, sf, short
+from vf.base import Discard, Failure, Raised, arr_list, canon, eq, is_missing, lib, sf, short
 from vf.harness import Sub
 
 PID = 'C04'
@@ -45,7 +45,12 @@ def _absent_label(ixrec, v):
     elif k == 'tuple':
         cands = [(99, 'zz')]
     elif k == 'ih':
-        cands = [labels[0][:-1] + ('zz%d' % v,)] if labels else [('zz', 'zz')]
+        if labels:
+            last = labels[0][-1]
+            new_last = ('zz%d' % v) if isinstance(last, str) else (np.datetime64(19500 + v, 'D') if isinstance(last, np.datetime64) else 1000 + v)
+            cands = [labels[0][:-1] + (new_last,)]
+        else:
+            cands = [('zz', 'zz')]
     else:
         cands = ['zz%d' % v, 1000 + v]
     for c in cands:
@@ -87,6 +92,8 @@ def loc_key(draw, ixrec, allow_scalar=True):
     if t == 'boolseries':
         pos = draw(st.lists(st.integers(0, max(n - 1, 0)), max_size=n, unique=True)) if n else []
         vals = draw(st.lists(st.booleans(), min_size=len(pos), max_size=len(pos)))
+        if kind == 'ih':
+            pos = sorted(pos)  # a subsequence of tree-ordered labels is still tree-ordered
         return {'t': 'boolseries', 'labels': [labels[p] for p in pos], 'v': vals}
     if t == 'iloc':
         return {'t': 'iloc', 'v': draw(gen.iloc_key(n, allow_scalar=allow_scalar))}
@@ -211,7 +218,8 @@ def real_key(ixrec, key):
     if t == 'boolarr':
         return key['v']
     if t == 'boolseries':
-        ix = gen.build_index({**ixrec, 'labels': key['labels'], 'kind': ixrec['kind'] if ixrec['kind'] != 'auto' else 'int'})
+        depth = len(ixrec['labels'][0]) if (ixrec['kind'] == 'ih' and ixrec['labels']) else 2
+        ix = gen.build_index({**ixrec, 'labels': key['labels'], 'depth': depth, 'kind': ixrec['kind'] if ixrec['kind'] != 'auto' else 'int'})
         return sf.Series(np.array(key['v'], dtype=bool), index=ix)
     if t == 'iloc':
         return sf.ILoc[key['v']]
@@ -337,13 +345,17 @@ def check_frame(case):
                 return {'nt': True, 'cls': classes + ['absent->raises']}
             raise Failure('raised:%s' % got.cls, 'absent key (%s) raised %r instead of a lookup error' % (expect_raise, got.exc), got.where)
         raise Failure('no-raise', 'absent key (%s) returned %s' % (expect_raise, short(got)))
+    for ixrec, pos, sc in ((rec['index'], rp, rs), (rec['columns'], cp, cs)):
+        if ixrec['kind'] == 'ih' and not sc and not gen.is_tree_order([ixrec['labels'][i] for i in pos]):
+            raise Discard('ih-selection-order-not-a-tree')
     if isinstance(got, Raised):
         raise Failure('raised:%s' % got.cls, 'selection defined by the model (rows %s cols %s) raised %r' % (rp, cp, got.exc), got.where)
     rname = il[rp[0]] if rs else None
     cname = cl[cp[0]] if cs else None
+    obs.LOOSE_MISSING[0] = True
     if rs and cs:
         want = arr_list(cols[cp[0]])[rp[0]]
-        if isinstance(got, (sf.Series, sf.Frame)) or not eq(got, want):
+        if isinstance(got, (sf.Series, sf.Frame)) or not obs._eqv(got, want):
             raise Failure('value', 'element: expected %r got %s' % (want, short(got)))
     elif rs:
         obs.expect_series(got, [cl[j] for j in cp], [arr_list(cols[j])[rp[0]] for j in cp], 'row', name=rname)
@@ -394,6 +406,8 @@ def check_series(case):
                 return {'nt': True, 'cls': classes + ['absent->raises']}
             raise Failure('raised:%s' % got.cls, 'absent key (%s) raised %r instead of a lookup error' % (expect_raise, got.exc), got.where)
         raise Failure('no-raise', 'absent key (%s) returned %s' % (expect_raise, short(got)))
+    if rec['index']['kind'] == 'ih' and not sc and not gen.is_tree_order([rec['index']['labels'][i] for i in p]):
+        raise Discard('ih-selection-order-not-a-tree')
     if isinstance(got, Raised):
         raise Failure('raised:%s' % got.cls, 'selection defined by the model (positions %s) raised %r' % (p, got.exc), got.where)
     if sc:
@@ -447,7 +461,7 @@ def check_bloc(case):
         lab = canon(lab)
         if lab not in want:
             raise Failure('labels', 'bloc: unexpected label %r' % (lab,))
-        if not eq(want[lab], v):
+        if not (eq(want[lab], v) or (is_missing(want[lab]) and is_missing(v))):
             raise Failure('value', 'bloc[%r]: expected %r got %r' % (lab, want[lab], v))
     return {'nt': 0 < len(want) < mask.size, 'cls': ['bloc:' + case['how']]}
 
@@ -490,6 +504,10 @@ def tag_frame(case, f):
     n, m = len(rec['index']['labels']), len(rec['columns']['labels'])
     # (c) row subset x empty column selection
     if f.kind == 'raised:ErrorInitFrame' and f.where.startswith('frame.py'):
+        for k in _keys(case):
+            # (b) turned the column/row selection empty, then (c) applies
+            if k['t'] == 'slice' and k['step'] is not None and k['step'] < 0 and k['stop'] is not None and 'incorrect size' in f.detail:
+                return 'descending-label-slice-drops-stop'
         try:
             if case['route'] == 'iloc':
                 rp, rs = gen.positions_of(case['rk'], n)
